@@ -19,7 +19,9 @@ def finish(ctx, results, witnesses, replay=None, assumptions=(), bounds=None, ru
         if r.status == 'pass': passed.append(r)
         elif r.status == 'fail':
             info = {'confirmed': None, 'key': None, 'text': '; '.join(d for _, d in r.failed[:3]), 'path': None}
-            if replay is not None:
+            if getattr(r, 'notrace', False):
+                info.update({'confirmed': None, 'strict': True, 'key': 'no-trace', 'text': info['text'] + ' | the solver reports a counterexample but the trace run did not finish within its budget: nothing to replay'})
+            elif replay is not None:
                 try:
                     got = replay(ctx, r)
                     if got: info.update(got)
